@@ -83,7 +83,28 @@ func (e *Engine) failStack(st *State) []string {
 // assertObligation decides one assertion: unsat of pc ∧ ¬c discharges it; a model is a counterexample. When the
 // harness registered known-finding signatures that are listed as open, the counterexample is classified, and a
 // second query looks for a counterexample outside every listed signature (a different violation is still reported).
+// enough stops a job once it holds MaxFailures counterexamples outside every known-finding signature: the verdict
+// of the job is already "violated", and every further counterexample costs a model extraction (seconds each once the
+// solver holds thousands of definitions). The remaining paths are not explored; the result says so.
+type jobEnough struct{ n int }
+
+func (e *Engine) enough() {
+	if e.MaxFailures <= 0 {
+		return
+	}
+	n := 0
+	for _, f := range e.Failures {
+		if (f.Kind == "assert" || f.Kind == "panic") && f.Known == "" {
+			n++
+		}
+	}
+	if n >= e.MaxFailures {
+		panic(jobEnough{n})
+	}
+}
+
 func (e *Engine) assertObligation(st *State, c *Term, msg string) {
+	defer e.enough()
 	e.AssertQ++
 	if c.IsTrue() {
 		// folded to true by the term constructors: trivial only if no solver-decided branch led here
